@@ -84,7 +84,7 @@ def run(b, tier, seed, t0, prop="C18"):
     chk = b.drharness("dagcheck.c", dr)
     outdir = os.path.join(dr["dir"], "out")
     os.makedirs(outdir, exist_ok=True)
-    nprog = (40 if prop == "C18" else 24) if tier == "quick" else 400
+    nprog = (40 if prop == "C18" else 24) if tier == "quick" else (3000 if prop == "C18" else 1200)
     env0 = dict(core.ASAN_ENV)
     env0["MYTH_VERIF_WATCHDOG"] = 0
     sims = []
